@@ -36,6 +36,8 @@ class P:
 def counter_atom(p):
     if p.counter_forms == 'plain':
         return st.builds(lambda w: ['$', w, None, False], st.integers(1, 4))
+    if p.counter_forms == 'fwd':
+        return st.builds(lambda w, b: ['$', w, b, False], st.integers(1, 4), st.one_of(st.none(), st.integers(0, 20)))
     return st.builds(lambda w, b, r: ['$', w, b, r], st.integers(1, 4), st.one_of(st.none(), st.integers(0, 20)), st.booleans())
 
 
@@ -72,6 +74,7 @@ def mention(p):
             st.builds(lambda v: ['.', v], simple_value(p)),
             st.builds(lambda v: ['#', v], simple_value(p)),
             st.builds(lambda n, v: ['a', n, 'raw', v, False], st.sampled_from(['t', 'data-a', 'title']), simple_value(p, 'abc123', 3)),
+            st.builds(lambda n, f, v: ['a', n, f, v, False], st.sampled_from(['u', 'data-b']), st.sampled_from(['dq', 'sq']), simple_value(p, 'abc12 ', 3)),
         )
     raise ValueError(p.mentions)
 
@@ -93,10 +96,26 @@ def element(draw, p):
         it['x'] = draw(text_value(p))
     if draw(st.floats(0, 1)) < p.rep:
         it['r'] = draw(st.integers(1, p.rep_max))
+    _avoid_placeholder(it)
     if it['x'] is None and draw(st.floats(0, 1)) < p.sc:
         it['sc'] = True
         it['rp'] = draw(st.booleans())
     return it
+
+
+def _ends_plain_counter(v):
+    return bool(v) and not isinstance(v[-1], str) and v[-1][0] == '$' and v[-1][2] is None and not v[-1][3]
+
+
+def _avoid_placeholder(it):
+    "a value ending in a plain `$` run must not be followed by `#` (that would spell the `$#` placeholder): append a literal"
+    seq = [it['n']] + [m[1] for m in it['m'] if m[0] in '#.']
+    order = [('n', None)] + [(i, m) for i, m in enumerate(it['m'])]
+    prev = it['n']
+    for m in it['m']:
+        if m[0] == '#' and _ends_plain_counter(prev):
+            prev.append('z')
+        prev = m[1] if m[0] in '#.' else None
 
 
 def _name(draw, p):
@@ -167,3 +186,31 @@ def _lower(sc):
 
 def scripts(p):
     return script(p).map(lambda sc: bounded(sc, p))
+
+
+# ---- guard against names that are aliases in the resolved snippet table
+_snip_cache = {}
+
+
+def snippet_keys(syntax='html'):
+    from emmet.config import Config
+    if syntax not in _snip_cache:
+        _snip_cache[syntax] = set(Config({'syntax': syntax, 'snippets': dict(NEUTRALISE)}).snippets.keys()) - set(NEUTRALISE)
+    return _snip_cache[syntax]
+
+
+def names_in(script):
+    for it in script:
+        if isinstance(it, str):
+            continue
+        if 'g' in it:
+            yield from names_in(it['g'])
+        elif it.get('n'):
+            yield M.ser_value(it['n'])
+            if isinstance(it['n'][0], str):
+                yield it['n'][0]
+
+
+def uses_snippet_key(script, syntax='html'):
+    keys = snippet_keys(syntax)
+    return any(n in keys for n in names_in(script))
